@@ -191,7 +191,11 @@ def direct_diffuse(ctx, rng, ncfg, nev):
         if ci == 0:
             ctx.sample({"mode": "Diffuse", "config": wit, "thrown": N, "kept": nk, "threshold": thr, "first_event": {"beta": float(beta[0]), "theta": float(theta[0]), "path_len": float(l[0]), "trigger": float(trig[0]), "cosChEff": float(cosch[0]), "pexit": float(pexit[0])}})
         # ---- threshold ladder (non-increasing), history independence
-        base = g.mcintegral(trig, cosch, pexit, thr, 1.0, 1.0)
+        try:
+            base = g.mcintegral(trig, cosch, pexit, thr, 1.0, 1.0)
+        except Exception as e:  # (after single-survivor throws on other objects)
+            ctx.exception("raises", "Diffuse mcintegral raised on valid arrays after other geometry objects were used", e, wit)
+            continue
         prev = None
         for t in sorted(set([0.0, thr * 0.5, np.nextafter(thr, 0), thr, np.nextafter(thr, np.inf), thr * 2, 1e9])):
             v = g.mcintegral(trig, cosch, pexit, float(t), 1.0, 1.0)
@@ -217,6 +221,41 @@ def direct_diffuse(ctx, rng, ncfg, nev):
         ctx.count("permutation")
         if not (close(pm[0], base[0], 1e-12 * abs(base[0]) + 1e-12 * abs(base[1])) and close(pm[1], base[1], 1e-11 * abs(base[1])) and pm[2] == base[2]):
             ctx.violation("permutation", f"Diffuse integral changes under event reordering: {pm[:3]!r} vs {base[:3]!r}", wit)
+        # ---- the same reordering thrown on the *used* object (same number of kept events as before: a weight
+        #      cache that is refreshed only when that count changes goes stale here, seeded C03-15), and two
+        #      objects thrown first and integrated afterwards (state shared between objects, seeded C01-17)
+        try:
+            g.throw(u[:, perm])
+            pm2 = g.mcintegral(trig[order], cosch[order], pexit[order], thr, 1.0, 1.0)
+            ctx.count("permutation")
+            if not (close(pm2[0], base[0], 1e-12 * abs(base[0]) + 1e-12 * abs(base[1])) and close(pm2[1], base[1], 1e-11 * abs(base[1])) and pm2[2] == base[2]):
+                ctx.violation("permutation", f"Diffuse integral of the reordered events thrown again on the same object: {pm2[:3]!r} vs {base[:3]!r}", wit)
+            cfgB = cfg.model_copy(deep=True)
+            cfgB.detector.initial_position.altitude = float(alt) * 1.7 + 3.0
+            cfgB.simulation.max_cherenkov_angle = float(np.radians(1.5))
+            cfgB = core.validated(cfgB, "C03 second diffuse configuration")
+            uB = rng.uniform(0, 1, (4, N))
+
+            def integ(obj):
+                n_ = int(np.count_nonzero(np.asarray(obj.event_mask, bool)))
+                th_ = np.array(obj.thetas())
+                return tuple(float(x) for x in obj.mcintegral(np.full(n_, 2 * thr), np.cos(th_ * 1.5 + 1e-3), np.full(n_, 0.25), thr, 1.0, 1.0)[:3])
+
+            gA, gB = RegionGeom(cfg), RegionGeom(cfgB)
+            gA.throw(u)
+            gB.throw(uB)
+            rA, rB = integ(gA), integ(gB)
+            rA2 = integ(gA)
+            sA, sB = RegionGeom(cfg), RegionGeom(cfgB)
+            sA.throw(u)
+            wA = integ(sA)
+            sB.throw(uB)
+            wB = integ(sB)
+            ctx.count("side-by-side")
+            if not (rA == wA and rB == wB and rA2 == wA):
+                ctx.violation("side-by-side", f"two geometry objects thrown first and integrated afterwards give {rA!r} / {rB!r} (again {rA2!r}); each thrown and integrated on its own gives {wA!r} / {wB!r}", wit)
+        except Exception as e:
+            ctx.exception("raises", "re-throw / side-by-side integrals raised", e, wit)
 
 
 def horizon_face(ctx):
@@ -531,7 +570,7 @@ def run(ctx):
     payloads += [{"kind": "direct", "what": "diffuse", "ncfg": ctx.pick(6, 30), "nev": ctx.pick(3000, 6000)} for _ in range(nd)]
     payloads += [{"kind": "direct", "what": "target", "ncfg": ctx.pick(2, 6), "nev": ctx.pick(2500, 6000)} for _ in range(nd)]
     core.run_shards(ctx, "nssmon.checks.c03", "shard", payloads, workers=min(16, len(payloads)))
-    for m in ("dtype", "single-survivor", "direct-diffuse", "direct-target", "target-column", "threshold-ladder", "history", "rethrow", "permutation", "fullrun-keywords", "fullrun-column"):
+    for m in ("dtype", "single-survivor", "direct-diffuse", "direct-target", "target-column", "threshold-ladder", "history", "rethrow", "permutation", "side-by-side", "fullrun-keywords", "fullrun-column"):
         ctx.require(m)
     if ctx.obs.get("target_bright_instants_seen", 0) == 0 or ctx.obs.get("target_dark_instants_seen", 0) == 0:
         ctx.inconclusive_because("the dark-sky mask never took both values on the kept instants")
